@@ -91,9 +91,24 @@ impl NetworkAddress {
     }
 
     /// Encode a SocketAddr to four-word format using four-word-networking
+    ///
+    /// The word form is only offered when it decodes back to the same address: the
+    /// encoder cannot represent every address (port 65535, ports of most IPv6
+    /// addresses, the host part of ULA addresses) and silently drops what does not fit.
     fn encode_four_words(addr: &SocketAddr) -> Option<String> {
         match FourWordAdaptiveEncoder::new().and_then(|enc| enc.encode(&addr.to_string())) {
-            Ok(s) => Some(s.replace(' ', "-")),
+            Ok(s) => {
+                let words = s.replace(' ', "-");
+                match Self::decode_four_words(&words) {
+                    Ok(decoded) if decoded.ip() == addr.ip() && decoded.port() == addr.port() => {
+                        Some(words)
+                    }
+                    _ => {
+                        tracing::debug!("No lossless four-word form for address {addr}");
+                        None
+                    }
+                }
+            }
             Err(e) => {
                 tracing::warn!("Failed to encode address {addr}: {e}");
                 None
